@@ -1,6 +1,8 @@
 import ConfModel.Driver.Common
 import ConfModel.Model.Library
 import ConfModel.Spec.Library
+import ConfModel.Model.EchoLoad
+import ConfModel.Driver.C02
 namespace ConfModel.Driver.C07
 open Lean ConfModel.Driver ConfModel.Config ConfModel.Library
 
@@ -151,6 +153,23 @@ def handle : Handler := fun op inp impl =>
       model := toJson (toString (repr m)),
       why := if holds then "" else if ok then s!"rejected ({implErr}) although raw payloads are used where allowed" else "accepted: a raw payload is used where it is not allowed",
       cls := if ok then "ok" else "rejected" }
+  | "rawload" =>
+    -- suites described by shape through the real parseTestSuites + newTestCaseLibrary; the model of
+    -- the validation is C02's (`EchoLoad.load`); the property's predicate — the mode-specific payload
+    -- restrictions — is evaluated on the implementation's verdict
+    let shapes := (arr (field inp "shapes")).map ConfModel.Driver.C02.lsuiteOf
+    let mode := match str (field inp "mode") with | "client" => 1 | "server" => 2 | _ => 0
+    let m := EchoLoad.loadErr EchoLoad.cfgApplies mode shapes
+    let want := match m with | none => "ok" | some _ => "error"
+    let cls := str (field impl "class")
+    let rawOk := shapes.all fun s => s.cases.all fun c =>
+      (!c.rawRequest || s.mode == 2) && (!EchoLoad.hasRaw c || (s.mode == 1 && c.explicit))
+    let holds := cls != "ok" || rawOk
+    { agree := cls == want, holds := holds, nontrivial := shapes.any (fun s => s.cases.any fun c => c.rawRequest || EchoLoad.hasRaw c),
+      model := Json.mkObj [("class", want), ("branch", match m with | none => "" | some e => toString (repr e))],
+      why := if !holds then "loaded: a raw request outside a server-mode suite, or a raw response outside a client-mode suite or without an explicit expected response"
+        else if cls == want then "" else "load verdict " ++ cls ++ ", the model of the validation says " ++ want,
+      cls := (match m with | none => "accepted" | some e => "rejected:" ++ toString (repr e)) }
   | "join" =>
     let elems := strList (field inp "elems")
     let impl' := str (field impl "joined")
